@@ -545,6 +545,17 @@ fn check_stability(kind: &str, n: usize, h: &[f64], h2: &[f64]) -> Option<String
     for t in 0..long { let x = if (t / 7) % 3 == 1 { 1.5 } else { [1.0, -1.0, 0.5, 2.0, 0.0, 0.0, 2.0][t % 7] }; v.update(x); w.update(x);
         if let (Some(p), Some(q)) = (v.last(), w.last()) { let g = (p - q).abs(); if first_gap.is_none() { first_gap = Some(g); }
             if t == long - 1 && g > 1e-6 + 1e-3 * first_gap.unwrap() { return Some(format!("outputs of two streams with a common tail of {long} values still differ by {g}")); } } }
+    // a constant common tail that repeats the last value of the first stream (ties with the state are the adversarial case); only for the
+    // linear filters, whose outputs on a constant tail are well conditioned
+    if matches!(kind, "ema" | "laguerre_filter" | "super_smoother" | "roofing_filter" | "cyber_cycle") && !h.is_empty() {
+        let c = *h.last().unwrap();
+        let mut v = make(kind, echo(), n); let mut w = make(kind, echo(), n);
+        for &x in h { v.update(x); } for &x in h2 { w.update(x); }
+        let mut first_gap = None;
+        for t in 0..long { v.update(c); w.update(c);
+            if let (Some(p), Some(q)) = (v.last(), w.last()) { let g = (p - q).abs(); if first_gap.is_none() { first_gap = Some(g); }
+                if t == long - 1 && g > 1e-6 + 1e-3 * first_gap.unwrap() { return Some(format!("outputs of two streams with a common constant tail of {long} values ({c}) still differ by {g}")); } } }
+    }
     None
 }
 fn check_determinism(kind: &str, inner: &str, n: usize, h: &[f64]) -> Option<String> {
